@@ -589,7 +589,7 @@ func RunC10(tier string, args []string) int {
 		fmt.Printf("  S %-40s execs=%d per-bound=%v outcomes=%v\n", rep.Scenario, rep.Executions, rep.PerBound, rep.Outcomes)
 	}
 	cov := fw.Coverage{
-		"schedule_scenarios": sreps,
+		"schedule_scenarios":            sreps,
 		"states":                        total.Stats.States + faultRuns,
 		"transitions":                   total.Stats.Transitions + 3*faultRuns,
 		"traces_validated_against_impl": total.Stats.Transitions + faultRuns,
